@@ -481,6 +481,56 @@ def run_operators(tier, seed):
                                           {"cell": cell, "why": f"rel_error {mpmath.nstr(err, 5)}", "expr": str(sres)[:300]})
                             break
                         res.cell(cell)
+    # ---- scale factors that are *symbols with a declared sign* (positive=True / negative=True): SympyLib.sign decides from the
+    # assumptions, so polar-stored vectors turn by pi / flip eta for a negative symbol exactly as for a negative number
+    import sympy as _sp
+    kp, kn = _sp.Symbol("k_pos", positive=True), _sp.Symbol("k_neg", negative=True)
+    sforms = {"v*k": lambda v, k: v * k, "k*v": lambda v, k: k * v, "v/k": lambda v, k: v / k, "v.scale(k)": lambda v, k: v.scale(k)}
+    for dim in (2, 3, 4):
+        for s_self in R.SYSTEMS[dim]:
+            mom = r.random() < 0.5
+            sv, ssyms = sym_vector(s_self, mom, "a")
+            for ksym, sgn in ((kp, 1), (kn, -1)):
+                if sgn < 0 and dim == 4 and s_self[2] == "tau":
+                    continue  # negative times are not representable in tau storage
+                for fname, f in sforms.items():
+                    res.evaluations += 1
+                    cell = f"op:{fname} [symbolic factor, {'positive' if sgn > 0 else 'negative'}]|{dim}|{R.sysname(s_self)}"
+                    try:
+                        sres = f(sv, ksym)
+                    except Exception as e:
+                        res.violation(f"C08/symbolic-call-raises op={fname}", {"cell": cell, "exc": f"{type(e).__name__}: {e}"[:300]})
+                        continue
+                    a_rv = gen.vec4(r, core=True, causal="timelike", forward=True)[0] if dim == 4 else gen.vec(r, dim, core=True)[0]
+                    kq = sgn * gen.dyadic(r, 0.5, 3)
+                    try:
+                        al = LVec(a_rv, s_self, mom)
+                        al.exact_coords()
+                        num = f(E.mat_mp(al), Q(kq))
+                        nres = E.VecResult(num)
+                    except Exception:
+                        continue
+                    subs = dict(zip(ssyms, [to_rational(c) for c in al.exact_coords()]))
+                    subs[ksym] = to_rational(kq)
+
+                    class _O:
+                        result = "vec"
+                        name = fname
+                    try:
+                        ssys, stored, smom, sdim = sym_result(_O, sres, subs)
+                        srv = R.from_coords(ssys, stored)
+                    except R.NotRepresentable:
+                        continue
+                    except Exception as e:
+                        res.violation(f"C08/expression-does-not-evaluate op={fname}", {"cell": cell, "exc": f"{type(e).__name__}: {e}"[:300]})
+                        continue
+                    unit = max(abs(c) for c in a_rv.comps()) * max(1, abs(kq), 1 / abs(kq))
+                    err = max(abs(p_ - q_) for p_, q_ in zip(srv.comps(), nres.rv.comps())) / unit
+                    if ssys != nres.system or not err <= TOL:
+                        res.violation(f"C08/expression-disagrees-with-numeric-backend op={fname}",
+                                      {"cell": cell, "why": f"rel_error {mpmath.nstr(err, 5)}; systems {R.sysname(ssys)} / {R.sysname(nres.system)}",
+                                       "expr": str(sres)[:300], "factor": f"symbol declared {'positive' if sgn > 0 else 'negative'}, value {mpmath.nstr(kq, 8)}"})
+                    res.cell(cell)
     # ---- isclose: the symbolic backend compares structurally (a documented limitation: no tolerance), so only the two
     # clear-cut cases are judged -- a vector is close to an identical one for every tolerance (including 0, 0), and is not
     # close to a clearly different one -- against the object backend on the same numbers
